@@ -10,6 +10,7 @@ import (
 	"encoding/json"
 	"fmt"
 	"os"
+	"runtime"
 	"sort"
 	"sync/atomic"
 	"time"
@@ -56,6 +57,8 @@ type Out struct {
 	start   time.Time
 	current string
 	beat    int64
+	memTick int
+	memStop bool
 	seen    map[string]struct{}
 	vkeys   map[string]int
 	stopped bool
@@ -130,7 +133,24 @@ func (o *Out) Deadline() time.Time {
 	return o.start.Add(time.Duration(o.spec.BudgetS * float64(time.Second)))
 }
 
+// MemLimit: executions that end pruned or blocked leak their natively blocked goroutines (with
+// whatever they hold); a worker that has grown past this stops starting new cells and reports a cap.
+var MemLimit uint64 = 7 << 30
+
 func (o *Out) OverBudget() bool {
+	o.memTick++
+	if o.memTick%16 == 0 && !o.stopped {
+		var ms runtime.MemStats
+		runtime.ReadMemStats(&ms)
+		if ms.Sys > MemLimit {
+			o.stopped = true
+			o.memStop = true
+			o.Cap("worker memory reached %d MiB (leaked goroutines of abandoned executions); remaining cells not explored", ms.Sys>>20)
+		}
+	}
+	if o.memStop {
+		return true
+	}
 	d := o.Deadline()
 	if !d.IsZero() && time.Now().After(d) {
 		if !o.stopped {
